@@ -78,6 +78,8 @@ type WorldOpts struct {
 	FileShape   string // force the shape of the first file: one-chunk | two-chunks | nested-bytes | empty
 	ForceDir    bool
 	DeleteKinds []string // force delete targets, in order: permanode | claim | delete
+	NoEmptyValues bool   // set/add claims never carry an empty value
+	PlainAttrsOnly bool  // only tag/title/description attributes (no ref-valued ones)
 }
 
 func (w *World) add(b sto.Blob, kind string, deps ...blob.Ref) {
@@ -247,6 +249,9 @@ func GenWorld(rng *rand.Rand, o WorldOpts) *World {
 			}
 			s := w.Signers[si-1]
 			attr := attrs[rng.Intn(len(attrs))]
+			if o.PlainAttrsOnly {
+				attr = []string{"tag", "title", "tag", "description"}[rng.Intn(4)]
+			}
 			kind := []string{Set, Set, Add, Add, Del}[rng.Intn(5)]
 			val := trickyValues[rng.Intn(len(trickyValues))]
 			switch attr {
@@ -273,7 +278,7 @@ func GenWorld(rng *rand.Rand, o WorldOpts) *World {
 			if kind == Del && rng.Intn(2) == 0 {
 				val = ""
 			}
-			if kind != Del && val == "" && rng.Intn(2) == 0 {
+			if kind != Del && val == "" && (o.NoEmptyValues || rng.Intn(2) == 0) {
 				val = "v"
 			}
 			d := nextDate()
